@@ -654,3 +654,72 @@ if "determinism.source_events_tagged_in_flight" not in CATALOGUE:
         src = Source.constant(rate=20.0, target=tagger, event_type="Request", stop_after=Instant.from_seconds(2.0), name="src")
         sim = make_sim([tagger, lb, *backends], 3.0, sources=[src])
         return Scenario(sim, {"tagger": tagger, "lb": lb, **{b.name: b for b in backends}}, "determinism", True, 40)
+
+
+
+if "determinism.pause_build_elsewhere_resume" not in CATALOGUE:
+
+    @scenario("determinism.pause_build_elsewhere_resume", "determinism")
+    def pause_build_elsewhere_resume(seed, params):
+        """The run is paused through the control surface; while it is paused the user creates an event (handed to
+        an entity that emits it later) and - in the interpreter that also builds unrelated simulations - constructs
+        another, larger Simulation; then the run is resumed.  Same-instant order after the resume must not depend
+        on what else was built in the process meanwhile."""
+        import os
+
+        from happysimulator.core.entity import Entity as _E
+        from happysimulator.core.simulation import Simulation
+        from happysimulator.core.temporal import Instant
+
+        rng = random.Random(seed)
+        tie_ns = rng.choice([2_000_000_000, 3_000_000_000])
+
+        class Emitter(Entity):
+            def __init__(self):
+                super().__init__("emitter")
+                self.stash = []
+                self.journal = []
+
+            def handle_event(self, event):
+                self.journal.append([self.now.nanoseconds, event.event_type, event.context.get("metadata", {}).get("tag")])
+                out = []
+                if event.event_type == "Trigger":
+                    out += self.stash  # the event made while paused is emitted now, by an entity
+                    self.stash = []
+                    # ... together with events created only now, for the same instant
+                    out += [Event(time=Instant(tie_ns), event_type="Fresh", target=self, context={"metadata": {"tag": i}}) for i in range(3)]
+                return out
+
+        em = Emitter()
+        sim = make_sim([em], 10.0)
+        for i in range(6):
+            sim.schedule(ev(i * 100_000_000, "Warm", em, tag=i))
+        sim.schedule(ev(1_000_000_000, "Trigger", em, tag=0))
+        pause_after = rng.choice([2, 4])
+
+        def runner():
+            ctl = sim.control
+            seen = [0]
+
+            def on_event(e):
+                seen[0] += 1
+                if seen[0] == pause_after:
+                    ctl.pause()
+
+            ctl.on_event(on_event)
+            sim.run()
+            if ctl.is_paused:
+                if os.environ.get("HSVERIF_C03_BYSTANDER"):
+                    class B(_E):
+                        def handle_event(self, event):
+                            return None
+
+                    b = B("elsewhere")
+                    other = Simulation(entities=[b], end_time=Instant.from_seconds(5.0))
+                    for j in range(300):
+                        other.schedule(Event(time=Instant.from_seconds(0.01 * j), event_type="Noise", target=b))
+                em.stash.append(Event(time=Instant(tie_ns), event_type="MadeWhilePaused", target=em, context={"metadata": {"tag": 99}}))
+                while ctl.is_paused:
+                    ctl.resume()
+
+        return Scenario(sim, {"emitter": em}, "determinism", True, 7, extras={"runner": runner})
